@@ -408,7 +408,7 @@ def check(run):
     impl = vlib.build_harness("h_jtext")
     model = vlib.build_model("jtext")
     mult = 1 if proofs_ok else 10
-    N = (1500 if tier == "quick" else 60000) * mult
+    N = (3000 if tier == "quick" else 60000) * mult
 
     # ---------------- documents: (bytes, in_scope, kind)
     docs = []
@@ -554,8 +554,12 @@ def check(run):
             len(allm), nl, ls[i][:300], oi[i][:200] if i < len(oi) else None, om[i][:200] if i < len(om) else None))
 
     # ---------------- ORACLE 1: valid documents against the reference parser
+    nviol = {}
+
     def viol(q, impl_out, why, kind):
-        run.violation({"query": q, "impl": impl_out, "kind": kind}, why)
+        nviol[kind] = nviol.get(kind, 0) + 1
+        if nviol[kind] <= 3:                       # a few replays per kind of failure are enough
+            run.violation({"query": q, "impl": impl_out, "kind": kind}, why)
 
     scope_docs = []
     for i, m in enumerate(meta):
